@@ -62,6 +62,12 @@ let model_main () =
              | _ -> failwith "step")
           | "E" :: "push" :: _ -> st := fst (step EPush !st); print_endline "R none"; out_state ()
           | "E" :: "pop" :: _ -> st := fst (step EPop !st); print_endline "R none"; out_state ()
+          | "E" :: "equates" :: rest ->
+            (match split_bar rest with
+             | [a; b] ->
+               print_endline ("R equates " ^ (if equates !st (lin_of_tokens a) (lin_of_tokens b) then "1" else "0"));
+               out_state ()
+             | _ -> failwith "equates syntax")
           | "E" :: "query" :: rest ->
             let l = lin_of_tokens rest in
             let lo = string_of_lb (lb_lin !st l) and hi = string_of_ub (ub_lin !st l) in
